@@ -1,22 +1,23 @@
-\* C29 thorough: 2 channels, 4 items, 2 keys + keyless, 2 payloads, <=1 injected failure, 1-2 batches in flight.
-\* 753,004 distinct states (1,864,723 generated), 8 min at load 30, 8 workers.
+\* C29 item contexts: 1 channel, 4 items, 2 keys, 1 payload, batches of up to 3, recovery by idempotency conflict only,
+\* at most 1 item given up by its submitter while its request is at the Appender, 1 batch in flight, strict order.
+\* 32,782 distinct states (56,771 generated), ~2.5 min on the loaded box with 6 workers.
 SPECIFICATION Spec
 CONSTANTS
-  NChans = 2
+  NChans = 1
   NKeys = 2
-  NPays = 2
+  NPays = 1
   MaxItems = 4
-  MaxBatch = 2
-  MaxFail = 1
+  MaxBatch = 3
+  MaxFail = 0
   MaxStops = 0
-  MaxCancel = 0
-  Inflights = {1, 2}
+  MaxCancel = 1
+  Inflights = {1}
   Hws = {99}
   Caps = {99}
   Effs = {FALSE}
   Unbounded = 99
   Canonical = TRUE
-  StrictOrder = FALSE
+  StrictOrder = TRUE
 VIEW View
 INVARIANTS TypeOK C29_InflightBound C29_CanceledOnlyIfCancelled C29_Aligned C29_NoSecondMessage C29_RetryOriginal C29_ChangedPayloadNeverSucceeds C29_Order C41_DoneMeansDrained C41_NothingDiscarded
 PROPERTIES C29_ExactlyOne C41_NoAdmitAfterStop C41_TimeoutKeepsWork
